@@ -61,6 +61,7 @@ import PyhamModel.Lemmas.Chaining
 import PyhamModel.Lemmas.GainedCount
 import PyhamModel.Lemmas.LostCount
 import PyhamModel.Lemmas.LongBranchInvariance
+import PyhamModel.Lemmas.ReportedCount
 import PyhamModel.Lemmas.LateSpecies
 namespace Pyham.Props
 open Pyham
@@ -316,6 +317,23 @@ theorem C06_lost_count_is_the_history (D : Dataset) (hc : D.Consistent) :
     ∃ H, load D.T D.nm D.file = .ok H ∧ ∀ a d, a ≠ d → D.T.isInternalAt a = true → D.T.isInternalAt d = true →
       (hogsMap H a d).loss.length = (D.fams.map fun f => extinctAt a d f.1 f.2).sum :=
   Pyham.C06_lost_count_is_the_history D hc
+
+/-- **how many genes are reported as duplicated / as retained over any branch**, on the hierarchy: one top-down walk per
+    family that carries "below a member of `a`, and has a duplication been passed since" (`reportedN`) -/
+theorem C06_reported_count (H : Ham) (hw : H.WFc) (a d : Taxon) :
+    ((hogsMap H a d).dupl.map (·.2.length)).sum = famSum H (fun top => reportedN true a d none top) ∧
+    (hogsMap H a d).retained.length = famSum H (fun top => reportedN false a d none top) :=
+  Pyham.C06_reported_count H hw a d
+
+/-- ... END TO END: for every consistent dataset and ANY two taxa, the comparison reports as many duplicated copies (resp.
+    retained genes) as lineages of the histories cross `d` below a lineage at `a` with (resp. without) a duplication event on
+    the way (`reportedAt`).  With the gained and lost counts: all four cluster sizes of every vertical comparison are functions
+    of the histories -/
+theorem C06_reported_count_is_the_history (D : Dataset) (hc : D.Consistent) :
+    ∃ H, load D.T D.nm D.file = .ok H ∧ ∀ a d,
+      ((hogsMap H a d).dupl.map (·.2.length)).sum = (D.fams.map fun f => reportedAt true a d f.1 none f.2).sum ∧
+      (hogsMap H a d).retained.length = (D.fams.map fun f => reportedAt false a d f.1 none f.2).sum :=
+  Pyham.C06_reported_count_is_the_history D hc
 
 /-- `Loc.rootTx` is the taxon of the outermost ancestor (the top-level HOG), or of the member itself when it has none -/
 theorem C06_rootTx_is_top (H : Ham) (hw : H.WFc) (r : Loc) (hr : r ∈ H.allLocs) :
